@@ -37,7 +37,7 @@ func parseSlots(a []string) []slotTok {
 
 func (t slotTok) counting() bool {
 	switch t.kind {
-	case "P", "B", "V", "CV", "I":
+	case "P", "B", "V", "CV", "I", "K", "CB":
 		return true
 	}
 	return false
@@ -135,6 +135,10 @@ func slotsText(ts []slotTok) string {
 			sb.WriteString("\tret void\n")
 		case "I":
 			sb.WriteString("\t" + lhs(t) + "invoke i32 @if()\n\t\tto label %exit unwind label %exit\n")
+		case "K": // value-yielding terminators other than invoke
+			sb.WriteString("\t" + lhs(t) + "catchswitch within none [label %exit] unwind to caller\n")
+		case "CB":
+			sb.WriteString("\t" + lhs(t) + "callbr i32 @if()\n\t\tto label %exit []\n")
 		case "IV":
 			sb.WriteString("\tinvoke void @vf()\n\t\tto label %exit unwind label %exit\n")
 		case "IVF": // the callee's full (non-variadic) function type spelled out
@@ -197,6 +201,12 @@ func buildSlotsAPI(ts []slotTok) *ir.Func {
 			cur.NewRet(nil)
 		case "I":
 			i := cur.NewInvoke(ifn, nil, exit, exit)
+			setIdent(t, &i.LocalIdent)
+		case "K":
+			i := cur.NewCatchSwitch(constant.None, []*ir.Block{exit}, nil)
+			setIdent(t, &i.LocalIdent)
+		case "CB":
+			i := cur.NewCallBr(ifn, nil, exit)
 			setIdent(t, &i.LocalIdent)
 		case "IV", "IVF":
 			cur.NewInvoke(vf, nil, exit, exit)
